@@ -14,6 +14,7 @@ let runners : (string * (string -> string list -> string list list -> (string ->
   ("C11", Drv_c11.run);
   ("C05", Drv_c05.run);
   ("C12", Drv_c12.run);
+  ("C03", Drv_c03.run);
 ]
 
 (* runners whose input is the harness OUTPUT ("<id> <line>" per line, model_input = "impl"):
